@@ -372,3 +372,61 @@ def abbreviate(ast, rng, names, max_packages=2, style: Style = EXACT):
         table[name] = render(get_at(ast, path), rng, style)
         ast = replace_at(ast, path, ["pkg", name, rng.choice([None, None, "0..1", "1..3"])])
     return ast, table
+
+
+# =================================================================================================
+# small-scope enumeration: ALL G-eval ASTs up to a number of leaves over a tiny alphabet
+# =================================================================================================
+SMALL_ALPHABET = [["rc", "1"], ["rc", "2"], ["hint", "501"], ["fc", "901"], ["fc", "902"]]
+
+
+def _then_ok(l, r) -> bool:
+    """juxtaposition attaches a single format-constraint key to a hint leaf or to an operand containing a requirement constraint"""
+    if l[0] == "fc" and r[0] != "fc":
+        operand = r
+    elif r[0] == "fc" and l[0] != "fc":
+        operand = l
+    else:
+        return False
+    return operand[0] == "hint" or has_rc(operand)
+
+
+def enumerate_asts(n_leaves: int, alphabet=None, _memo=None):
+    """every AST of the G-eval domain with exactly n_leaves leaves over `alphabet` (and / or / xor / then over all shapes)"""
+    alphabet = alphabet or SMALL_ALPHABET
+    memo = _memo if _memo is not None else {}
+    if n_leaves in memo:
+        return memo[n_leaves]
+    if n_leaves == 1:
+        out = [list(a) for a in alphabet]
+    else:
+        out = []
+        for k in range(1, n_leaves):
+            lefts = enumerate_asts(k, alphabet, memo)
+            rights = enumerate_asts(n_leaves - k, alphabet, memo)
+            for l in lefts:
+                for r in rights:
+                    for op in ("and", "or", "xor"):
+                        out.append([op, l, r])
+                    if _then_ok(l, r):
+                        out.append(["then", l, r])
+    memo[n_leaves] = out
+    return out
+
+
+def enumerate_fc_asts(n_leaves: int, keys=("901", "902", "903"), _memo=None):
+    """every U/O/X expression with exactly n_leaves leaves over the given format-constraint keys (all shapes)"""
+    memo = _memo if _memo is not None else {}
+    if n_leaves in memo:
+        return memo[n_leaves]
+    if n_leaves == 1:
+        out = [["fc", k] for k in keys]
+    else:
+        out = []
+        for k in range(1, n_leaves):
+            for l in enumerate_fc_asts(k, keys, memo):
+                for r in enumerate_fc_asts(n_leaves - k, keys, memo):
+                    for op in ("and", "or", "xor"):
+                        out.append([op, l, r])
+    memo[n_leaves] = out
+    return out
